@@ -133,13 +133,21 @@ pub trait UnwrapAbort<T>: Sized {
         requires strict() ==> self.ua_val() is Some,
         ensures self.ua_val() == Some(r);
 }
+/// The one abort primitive (A-UINT / rule R2): a panic ends the transaction and the chain rolls it back (A-ROLLBACK), so
+/// control never continues past it. In lenient mode an abort is a refusal; in strict mode it must be unreachable.
+/// Every aborting operation of the shim below (`unwrap`, `Uint128` `+ - -= %`) is *verified* against this primitive.
+#[verifier::external_body]
+pub fn abort<T>() -> (r: T)
+    requires !strict(),
+    ensures false,
+{ panic!() }
 impl<T> UnwrapAbort<T> for Option<T> {
     open spec fn ua_val(self) -> Option<T> { self }
-    #[verifier::external_body] fn unwrap_abort(self) -> (r: T) { self.unwrap() }
+    fn unwrap_abort(self) -> (r: T) { match self { Some(t) => t, None => abort() } }
 }
 impl<T, E> UnwrapAbort<T> for Result<T, E> {
     open spec fn ua_val(self) -> Option<T> { match self { Ok(t) => Some(t), Err(_) => None } }
-    #[verifier::external_body] fn unwrap_abort(self) -> (r: T) { match self { Ok(t) => t, Err(_) => panic!() } }
+    fn unwrap_abort(self) -> (r: T) { match self { Ok(t) => t, Err(_) => abort() } }
 }
 #[verifier::external_body] pub fn fmt_opaque() -> String { unimplemented!() }
 
@@ -205,8 +213,7 @@ impl SubSpecImpl<Uint128> for Uint128 {
 }
 impl core::ops::Sub for Uint128 {
     type Output = Uint128;
-    #[verifier::external_body]
-    fn sub(self, rhs: Uint128) -> (r: Uint128) ensures self.v >= rhs.v, r.v == self.v - rhs.v { unimplemented!() }
+    fn sub(self, rhs: Uint128) -> (r: Uint128) ensures self.v >= rhs.v, r.v == self.v - rhs.v { if self.v >= rhs.v { Uint128 { v: self.v - rhs.v } } else { abort() } }
 }
 impl AddSpecImpl<Uint128> for Uint128 {
     open spec fn obeys_add_spec() -> bool { false }
@@ -215,8 +222,7 @@ impl AddSpecImpl<Uint128> for Uint128 {
 }
 impl core::ops::Add for Uint128 {
     type Output = Uint128;
-    #[verifier::external_body]
-    fn add(self, rhs: Uint128) -> (r: Uint128) ensures self.v + rhs.v <= u128::MAX, r.v == self.v + rhs.v { unimplemented!() }
+    fn add(self, rhs: Uint128) -> (r: Uint128) ensures self.v + rhs.v <= u128::MAX, r.v == self.v + rhs.v { if self.v <= u128::MAX - rhs.v { Uint128 { v: self.v + rhs.v } } else { abort() } }
 }
 impl SubAssignSpecImpl<Uint128> for Uint128 {
     open spec fn obeys_sub_assign_spec() -> bool { false }
@@ -224,22 +230,19 @@ impl SubAssignSpecImpl<Uint128> for Uint128 {
     open spec fn sub_assign_spec(&self, rhs: Uint128) -> &Uint128 { arbitrary() }
 }
 impl core::ops::SubAssign for Uint128 {
-    #[verifier::external_body]
-    fn sub_assign(&mut self, rhs: Uint128) ensures old(self).v >= rhs.v, final(self).v == old(self).v - rhs.v { unimplemented!() }
+    fn sub_assign(&mut self, rhs: Uint128) ensures old(self).v >= rhs.v, final(self).v == old(self).v - rhs.v { if self.v >= rhs.v { self.v = self.v - rhs.v; } else { abort::<()>() } }
 }
 impl Uint128 {
     pub fn u128(&self) -> (r: u128) ensures r == self.v { self.v }
     pub fn is_zero(&self) -> (r: bool) ensures r == (self.v == 0) { self.v == 0 }
     pub fn new(v: u128) -> (r: Uint128) ensures r.v == v { Uint128 { v } }
     pub fn zero() -> (r: Uint128) ensures r.v == 0 { Uint128 { v: 0 } }
-    #[verifier::external_body]
     pub fn checked_sub(self, o: Uint128) -> (r: Result<Uint128, OverflowError>)
         ensures self.v >= o.v ==> r == Ok::<Uint128, OverflowError>(Uint128 { v: (self.v - o.v) as u128 }), self.v < o.v ==> r is Err
-    { unimplemented!() }
-    #[verifier::external_body]
+    { if self.v >= o.v { Ok(Uint128 { v: self.v - o.v }) } else { Err(OverflowError {}) } }
     pub fn checked_add(self, o: Uint128) -> (r: Result<Uint128, OverflowError>)
         ensures self.v + o.v <= u128::MAX ==> r == Ok::<Uint128, OverflowError>(Uint128 { v: (self.v + o.v) as u128 }), self.v + o.v > u128::MAX ==> r is Err
-    { unimplemented!() }
+    { if self.v <= u128::MAX - o.v { Ok(Uint128 { v: self.v + o.v }) } else { Err(OverflowError {}) } }
     #[verifier::external_body]
     pub fn to_string(&self) -> (r: String) ensures r@ == u128_str(self.v as int) { unimplemented!() }
 }
@@ -256,8 +259,7 @@ impl RemSpecImpl<Uint128> for Uint128 {
 impl core::ops::Rem for Uint128 {
     type Output = Uint128;
     /// cosmwasm: `Self(self.0.rem(rhs.0))`, aborts on a zero divisor
-    #[verifier::external_body]
-    fn rem(self, rhs: Uint128) -> (r: Uint128) ensures rhs.v != 0, r.v == self.v % rhs.v { unimplemented!() }
+    fn rem(self, rhs: Uint128) -> (r: Uint128) ensures rhs.v != 0, r.v == self.v % rhs.v { if rhs.v != 0 { Uint128 { v: self.v % rhs.v } } else { abort() } }
 }
 impl FromSpecImpl<Uint128> for u128 {
     open spec fn obeys_from_spec() -> bool { true }
@@ -466,24 +468,22 @@ pub struct CwMap<V> { pub ns: &'static str, pub p: Ghost<Option<V>> }
 pub enum Order { Ascending, Descending }
 impl<V: MapStored> CwMap<V> {
     pub const fn new(ns: &'static str) -> Self { CwMap { ns, p: Ghost(None) } }
-    #[verifier::external_body]
+    // `Map::load/may_load/save/remove/update(store, k, ..)`: bodies as in cw-storage-plus (`self.key(k).f(store, ..)`),
+    // verified against the assumed contracts of `Path` (the only assumed storage primitives besides `has`/`is_empty`/range)
     pub fn load(&self, store: &Storage, k: &[u8]) -> (r: Result<V, StdError>)
         ensures match V::m_get(store@, k@) { Some(v) => r == Ok::<V, StdError>(v), None => r is Err }
-    { unimplemented!() }
-    #[verifier::external_body]
+    { self.key(k).load(store) }
     pub fn may_load(&self, store: &Storage, k: &[u8]) -> (r: Result<Option<V>, StdError>)
         ensures match V::m_get(store@, k@) {
             Some(v) => r == Ok::<Option<V>, StdError>(Some(v)),
             None => if V::m_raw(store@, k@) { r is Err } else { r == Ok::<Option<V>, StdError>(None) } }
-    { unimplemented!() }
-    #[verifier::external_body]
+    { self.key(k).may_load(store) }
     pub fn save(&self, store: &mut Storage, k: &[u8], v: &V) -> (r: Result<(), StdError>)
         ensures r is Ok, final(store)@ == V::m_put(old(store)@, k@, *v)
-    { unimplemented!() }
-    #[verifier::external_body]
+    { self.key(k).save(store, v) }
     pub fn remove(&self, store: &mut Storage, k: &[u8])
         ensures final(store)@ == V::m_del(old(store)@, k@)
-    { unimplemented!() }
+    { self.key(k).remove(store) }
     #[verifier::external_body]
     pub fn is_empty(&self, store: &Storage) -> (r: bool)
         ensures r == V::m_empty(store@)
@@ -512,9 +512,9 @@ impl<V: MapStored> CwMap<V> {
                     forall|k: Seq<u8>| V::m_get(store@, k) is Some ==> exists|i: int| 0 <= i < r@.len() && #[trigger] r@[i]@ == k,
                 forall|i: int, j: int| 0 <= i < j < r@.len() ==> r@[i]@ != r@[j]@,
     { unimplemented!() }
-    /// cw-storage-plus: `let input = self.may_load(..)?; let output = action(input)?; self.save(.., &output)?; Ok(output)`
-    #[verifier::external_body]
-    pub fn update<A: FnOnce(Option<V>) -> Result<V, E>, E>(&self, store: &mut Storage, k: &[u8], action: A) -> (r: Result<V, E>)
+    /// cw-storage-plus: `let input = self.may_load(..)?; let output = action(input)?; self.save(.., &output)?; Ok(output)`;
+    /// that body is **verified** here (the two `?` on `StdError` written as the `match` they expand to)
+    pub fn update<A: FnOnce(Option<V>) -> Result<V, E>, E: From<StdError>>(&self, store: &mut Storage, k: &[u8], action: A) -> (r: Result<V, E>)
         requires
             !(V::m_raw(old(store)@, k@) && V::m_get(old(store)@, k@) is None) ==> action.requires((V::m_get(old(store)@, k@),)),
         ensures
@@ -526,7 +526,12 @@ impl<V: MapStored> CwMap<V> {
             // no-abort / no-error direction: the only other error source is the action itself
             (!(V::m_raw(old(store)@, k@) && V::m_get(old(store)@, k@) is None)
                 && (forall|x: Result<V, E>| action.ensures((V::m_get(old(store)@, k@),), x) ==> x is Ok)) ==> r is Ok,
-    { unimplemented!() }
+    {
+        let input = match self.may_load(store, k) { Ok(i) => i, Err(e) => { return Err(E::from(e)); } };
+        let output = action(input)?;
+        match self.save(store, k, &output) { Ok(_) => {}, Err(e) => { return Err(E::from(e)); } };
+        Ok(output)
+    }
 }
 pub struct Path<'a, V> { pub k: &'a [u8], pub p: Ghost<Option<V>> }
 impl<'a, V: MapStored> Path<'a, V> {
